@@ -55,14 +55,13 @@ def verify(k, prop, cls=None, invariants=None, calls=None, hooks=None, extra_pre
         spec.closure_vals[name] = v
         args[name] = v
     for name, v in (ghost or {}).items(): st.ghost[name] = v
-    st.assume(*calls_mod().lattice_axioms())
+    if extra_pre:
+        for f in extra_pre(View(st, args)): st.assume(f)
     pre_st = st.copy()
     spec.pre_view = View(pre_st, args)
     cl0 = k.clauses(args, pre_st, pre_st, k.result.fresh('noresult') if k.result is not None else P_NONE, True)
     for lab, f in cl0.requires: st.assume(f)
     spec.trace_spec = cl0.trace_spec
-    if extra_pre:
-        for f in extra_pre(View(pre_st, args)): st.assume(f)
     pre_pc = list(st.pc)
     tag = label or k.key
     info = VerifyInfo()
